@@ -5,6 +5,7 @@ import Emerge.Driver.Regex
 import Emerge.Driver.ParseEval
 import Emerge.Driver.Emitted
 import Emerge.Driver.Cli
+import Emerge.Driver.Lalr
 /-
   Model driver: one case per input line, one result per output line (same protocol as the Go harness).
 -/
@@ -31,6 +32,7 @@ def dispatch (cmd : String) (fields : List String) : String :=
   | "winner" => cmdWinner fields
   | "emitscan" => cmdEmitScan fields
   | "cli" => cmdCli fields
+  | "lalr" => cmdLalrCheck fields
   | "renfafixed" => cmdReNFAFixed fields
   | "reast" => cmdReAST fields
   | _ => "UNKNOWN-COMMAND"
